@@ -7,6 +7,14 @@
     tools/qvc_c_run.py --selftest deliberate breakage on a scratch copy of /repo (see vf/qvc_c/selftest.py)
     -v                            also list every discharged obligation
 
+environment
+    VERIF_REPO              tree to verify (default /repo); only qubovert/sim/src/*.c,*.h are read
+    QVC_C_STRICT_HEADERS=1  a loop header that differs from the recorded one makes the function leave reach at once
+                            (default: the recorded invariants are tried as candidates and used only if they
+                            re-verify as inductive; otherwise the function leaves reach)
+    QVC_C_TIMEOUT_MS        z3 timeout per query (default 8000)
+    QVC_C_CONTRACTS         alternative sidecar file (default /verif/contracts_c/kernels.py)
+
 exit 0  every obligation discharged and no function left reach
 exit 1  some obligation refuted or open
 exit 2  nothing failed, but some function left reach (no verdict for it)
@@ -42,8 +50,10 @@ def report(r, verbose=False, out=sys.stdout):
         if f["status"] == "error":
             w("  %-42s ERROR\n" % fkey)
             continue
-        w("  %-42s %-14s %3d/%-3d discharged  paths %-3s solver %6.2fs%s\n" % (
+        cn = f.get("canaries") or {}
+        w("  %-42s %-14s %3d/%-3d discharged  paths %-3s solver %6.2fs  contexts sat/unknown/vacuous %s/%s/%s%s\n" % (
             fkey, f["status"], f.get("discharged", 0), f.get("obligations", 0), f.get("paths"), f.get("solver_time_s", 0.0),
+            cn.get("sat", "-"), cn.get("unknown_only", "-"), len(cn.get("vacuous", [])),
             "  [header changed; invariants re-verified]" if f.get("note") else ""))
     w("total: %d/%d obligations discharged, solver time %.1fs, wall %.1fs\n" % (dis, tot, r["solver_time_s"], r["wall_s"]))
     bad = [o for o in r["obligations"] if o["status"] != "discharged"]
